@@ -113,7 +113,7 @@ package mhprimary
 //@   define P0() = rollp(old(cp.recPos), old(cp.recFileNum), cp.maxFileSize)
 //@   define F0() = rollf(old(cp.recPos), old(cp.recFileNum), cp.maxFileSize)
 //@   preserves cp
-//@   local requires len(key) + len(value) < (1 << 31) && cp.outstandingWork < (1 << 62)
+//@   local requires len(key) + len(value) < (1 << 31)
 //@   modifies cp.recPos, cp.recFileNum, cp.nextPool.blocks, mapof(cp.nextPool.refs), elems(cp.nextPool.blocks), cp.outstandingWork
 //@   ensures @ok err == nil
 //@   ensures @predicted blk.Offset == ppos(F0(), cp.maxFileSize, P0()) && blk.Size == len(key) + len(value)
@@ -194,6 +194,7 @@ package mhprimary
 //@   ghost at after call (*os.File).Truncate#0: gtrunc = ite($r0 == nil, $a1, gtrunc)
 // input invariant: a primary record is smaller than 2^30 bytes (the code's own assumption)
 //@   assume at after call (encoding/binary.littleEndian).Uint32#0: @format-primary-record-size $r0 % 2147483648 < 1073741824
+//@   assume at after call (encoding/binary.littleEndian).Uint32#1: @format-primary-record-size-2 $r0 < 1073741824
 //@   assert at loop 0 latch: @cursor-follows-format pos == gpos + 4 + gsz
 //@   assert at before call (*os.File).ReadAt#0: @read-at-boundary $a2 == pos && gB[pos] && len($a1) == 4
 //@   assert at before call (*os.File).WriteAt#0: @merge-keeps-chain gB[$a2] && $a2 + 4 + freeAtSize == gpos + 4 + gsz && len($a1) == 4 && le32(bytes($a1), 0) == freeAtSize + 2147483648 && freeAtSize < 2147483648
@@ -201,11 +202,15 @@ package mhprimary
 //@   assert at before call (*os.File).ReadAt#1: @relocate-at-boundary $a2 == busyAt && gB[busyAt] && len($a1) == 4
 //@   assert at before call (*os.File).ReadAt#2: @buffer-not-pooled forall i int :: 0 <= i && i < len(gc.primary.nextPool.blocks) ==> baseof(gc.primary.nextPool.blocks[i].key) != baseof($a1) && baseof(gc.primary.nextPool.blocks[i].value) != baseof($a1)
 //@   assert at before call freelist.FreeList.Put#1: @C13-old-location-freed $a1.Offset == ppos(fileNum, gc.primary.maxFileSize, busyAt) && $a1.Size == gS[busyAt] && gB[busyAt]
+//@   unreachable return#14: FreeList.Put only appends to the in-memory pool and never fails (its contract: err == nil)
+//@   unreachable return#15: FreeList.Put only appends to the in-memory pool and never fails (its contract: err == nil)
 //@   internal ensures @dead-means-empty dead ==> err == nil && (gtrunc == 0 || event("call:(*os.File).ReadAt") == 0)
 //@   loop 0 invariant @cursor pos >= 0 && pos <= file.$size + 2147483648 && file.$size < (1 << 62) && gB[pos] && file != nil && len(sizeBuf) == 4 && fresh(sizeBuf) && fresh(file)
 //@   loop 0 invariant @spans 0 - 1 <= busyAt && busyAt < pos && 0 - 1 <= prevBusyAt && prevBusyAt <= busyAt && 0 - 1 <= freeAt && freeAt < pos && freeAtSize < 2147483648 && (pos == 0 ==> freeAt == 0 - 1 && busyAt == 0 - 1)
 //@   loop 0 invariant @free-span freeAt > busyAt ==> gB[freeAt] && freeAt + 4 + freeAtSize == pos
+//@   loop 0 invariant @busy-sizes 0 <= busySize && busySize < 1073741824 && 0 <= prevBusySize && prevBusySize < 1073741824
 //@   loop 0 invariant @busy-records (busyAt >= 0 ==> gB[busyAt] && busySize == gS[busyAt]) && (prevBusyAt >= 0 ==> gB[prevBusyAt] && prevBusySize == gS[prevBusyAt])
+//@   loop 1 invariant @busy-sizes 0 <= busySize && busySize < 1073741824 && 0 <= prevBusySize && prevBusySize < 1073741824
 //@   loop 1 invariant @busy-records 0 - 1 <= busyAt && (busyAt >= 0 ==> gB[busyAt] && busySize == gS[busyAt]) && 0 - 1 <= prevBusyAt && (prevBusyAt >= 0 ==> gB[prevBusyAt] && prevBusySize == gS[prevBusyAt])
 //@   loop 1 invariant @handles file != nil && fresh(file) && len(sizeBuf) == 4 && fresh(sizeBuf) && gc.primary == old(gc.primary) && gc.freeList == old(gc.freeList) && inv(gc.primary)
 
